@@ -53,6 +53,7 @@ type PQ struct {
 	CheckCounters bool
 	FlushOK       int // successful explicit flushes
 	Concurrent    bool // producer and consumer are different tasks
+	AfterOpen     func() // called after file and queue have been opened
 }
 
 func NewPQ(e *Env, d *simdisk.Disk, cfg Cfg) *PQ {
@@ -83,6 +84,9 @@ func (p *PQ) Open() error {
 		p.F.Close()
 		p.F = nil
 		return err
+	}
+	if p.AfterOpen != nil {
+		p.AfterOpen()
 	}
 	return nil
 }
@@ -393,7 +397,14 @@ func evChunk(seed uint64, idx, off, n int) []byte {
 // Reopen closes queue and file and opens them again (clean restart).
 func (p *PQ) Reopen() {
 	e := p.E
+	// Queue.Close flushes the write buffer: it is a producer call
+	if p.OnProducer != nil {
+		p.OnProducer(true, p.completed(), p.completed())
+	}
 	err := p.Q.Close()
+	if p.OnProducer != nil {
+		p.OnProducer(false, p.completed(), p.completed())
+	}
 	if err != nil {
 		if p.Cfg.MaxSize > 0 && isOOM(err) {
 			// flushing the write buffer failed: buffered events are lost
